@@ -6,6 +6,8 @@ extern int lalias_2; extern void *addr_lalias_2(void); extern int read_lalias_2(
 int efunc_3(void){ return 102; } extern void *l1_addr_efunc_3(void); extern int l1_call_efunc_3(void);
 extern const int ldata_ro_4[]; extern const void *addr_ldata_ro_4(void); extern const void *l1_addr_ldata_ro_4(void); extern int read_ldata_ro_4(void); extern int l1_read_ldata_ro_4(void); const int *volatile dp_ldata_ro_4 = ldata_ro_4;
 extern const int ldata_ro_5[]; extern const void *addr_ldata_ro_5(void); extern const void *l1_addr_ldata_ro_5(void); extern int read_ldata_ro_5(void); extern int l1_read_ldata_ro_5(void); const int *volatile dp_ldata_ro_5 = ldata_ro_5;
+extern int lalias_sw_6; extern void *addr_lalias_sw_6(void); extern void *waddr_lalias_sw_6(void); extern int read_lalias_sw_6(void); extern void write_lalias_sw_6(int);
+extern int lalias_multi_7[]; extern void *addr_lalias_multi_7(void); extern void *waddr_lalias_multi_7(void); extern int read_lalias_multi_7(void); extern void write_lalias_multi_7(int);
 int main(void){
     if ((void*)lfunc_0 != addr_lfunc_0()) fail("lfunc_0: exe vs defining library");
     if ((void*)lfunc_0 != l1_addr_lfunc_0()) fail("lfunc_0: exe vs lib1");
@@ -29,4 +31,12 @@ int main(void){
     if ((const void*)ldata_ro_5 != l1_addr_ldata_ro_5()) fail("ldata_ro_5: exe vs lib1");
     if ((const void*)dp_ldata_ro_5 != (const void*)ldata_ro_5) fail("ldata_ro_5: data pointer vs code reference in exe");
     if (ldata_ro_5[0] != 196 || read_ldata_ro_5() != 196) fail("ldata_ro_5: initial value");
+    if ((void*)&lalias_sw_6 != addr_lalias_sw_6() || (void*)&lalias_sw_6 != waddr_lalias_sw_6()) fail("lalias_sw_6: symbol in exe vs its alias used by the library");
+    if (lalias_sw_6 != 146 || read_lalias_sw_6() != 146) fail("lalias_sw_6: initial value");
+    lalias_sw_6 = 1146; if (read_lalias_sw_6() != 1146) fail("lalias_sw_6: write in exe not seen by the library through the alias");
+    write_lalias_sw_6(153); if (lalias_sw_6 != 153) fail("lalias_sw_6: write by the library through the alias not seen in exe");
+    if ((void*)lalias_multi_7 != addr_lalias_multi_7() || (void*)lalias_multi_7 != waddr_lalias_multi_7()) fail("lalias_multi_7: symbol in exe vs its alias used by the library");
+    if (lalias_multi_7[0] != 0 || read_lalias_multi_7() != 0) fail("lalias_multi_7: initial value");
+    lalias_multi_7[0] = 1130; if (read_lalias_multi_7() != 1130) fail("lalias_multi_7: write in exe not seen by the library through the alias");
+    write_lalias_multi_7(137); if (lalias_multi_7[0] != 137) fail("lalias_multi_7: write by the library through the alias not seen in exe");
     if (!bad) printf("OK\n"); return bad ? 1 : 0; }
